@@ -519,6 +519,49 @@ func storeSideC10(p *core.Program, r *core.Report) {
 	}
 	r.Check(okName, "store/"+fname(bpp)+"/distinct-files", "the part file name is derived from the fragment's bundle ID and its payload length, so that two fragments starting at the same offset do not overwrite each other", p.Pos(bpp.Pos()), "", "file name does not depend on the payload length")
 
+	// ... and the length the name is derived from is the length recorded in the
+	// part (the duplicate test in Push compares the recorded one)
+	nName := 0
+	for _, cs := range allCallSites(p, storagePkg+".bundlePartPath") {
+		nName++
+		fn := cs.Parent()
+		arg := core.CallArgs(cs)[1]
+		var stores []*ssa.Store
+		core.EachInstr(fn, func(in ssa.Instruction) {
+			if st, ok := in.(*ssa.Store); ok && core.IsField(st.Addr, storagePkg, "BundlePart", "PayloadLength") {
+				stores = append(stores, st)
+			}
+		})
+		ok, why := false, "no store to BundlePart.PayloadLength in this function"
+		if len(stores) == 1 {
+			st := stores[0]
+			switch {
+			case arg == st.Val:
+				ok = true
+			default:
+				why = "the length handed to bundlePartPath is not the value recorded as the part's PayloadLength"
+				if ld, isLd := arg.(*ssa.UnOp); isLd && ld.Op == token.MUL && core.IsField(ld.X, storagePkg, "BundlePart", "PayloadLength") {
+					if core.MustPassBefore(ld, func(i ssa.Instruction) bool { return i == ssa.Instruction(st) }) {
+						ok = true
+					} else {
+						why = "the part's PayloadLength is read for the file name before it is set (zero): fragments starting at one offset share a file"
+					}
+				}
+			}
+			if ok && !core.DependsOn(st.Val, func(v ssa.Value) bool {
+				c, isC := v.(*ssa.Call)
+				return isC && core.NameIs(core.CalleeName(c), bp7+".PayloadBlock.Data")
+			}) {
+				ok, why = false, "the recorded length is not the length of the payload data"
+			}
+		} else if len(stores) > 1 {
+			why = "more than one store to BundlePart.PayloadLength"
+		}
+		r.Check(ok, "store/"+fname(fn)+"/file-name-from-recorded-length", "the payload length a part's file name is derived from is the very value recorded as the part's PayloadLength (the key of Store.Push's duplicate test) and is the length of the payload data", p.Pos(cs.Pos()), "", why)
+	}
+	r.Count("bundlePartPath call sites", nName)
+	r.Min("bundlePartPath call sites", 1)
+
 	push := p.Func(storagePkg, "Store", "Push")
 	nPartApp := 0
 	core.EachInstr(push, func(in ssa.Instruction) {
